@@ -51,10 +51,10 @@ def machine_devs():
 
 def families(tier):
     fam = [("float", "m", False), ("float", "", False), ("int", "m", False), ("int", "", False),
-           ("int", "km", False), ("str", "", False), ("bool", "", False),
+           ("str", "", False), ("bool", "", False),
            ("int", "", True), ("float", "m", True), ("str", "", True), ("bool", "", True)]
     if tier != "quick":
-        fam += [("float", "s", False), ("float", "km", False), ("int", "s", False), ("float", "", True), ("int", "m", True)]
+        fam += [("int", "km", False), ("float", "s", False), ("float", "km", False), ("int", "s", False), ("float", "", True), ("int", "m", True)]
     return fam
 
 
@@ -72,7 +72,7 @@ def mc_module(tier, fams=None):
     for pat in A.FMT_PATTERNS:
         cls = " @@ ".join(f'({json.dumps(s)} :> "{A.fmt_class(pat, s)}")' for s in A.FMT_STRINGS)
         rows.append(f'({json.dumps(pat)} :> [end |-> {C.tla_str(pat.endswith("$"))}, cls |-> ({cls})])')
-    ks = [-12, -9, 0, 3, 9, 10, 12] if tier == "quick" else [-12, -11, -10, -9, -3, -1, 0, 1, 3, 9, 10, 11, 12]
+    ks = [-12, 0, 3, 9, 10, 12] if tier == "quick" else [-12, -11, -10, -9, -3, -1, 0, 1, 3, 9, 10, 11, 12]
     return f"""---- MODULE DipConstraintsMC ----
 EXTENDS DipConstraints
 MCFamilies == {{{fams}}}
@@ -110,9 +110,11 @@ def replay_record(rec):
     """-> dict(status, ...) ; status in ok | violation | unspecified | drift"""
     p = rec["p"]
     r = A.render(p, rec["_seed"])
-    kind, obs = A.observe(r["text"], r["files"])
+    kind, obs = A.observe(r["text"], r["files"], r["text2"])
     ideal, mach = rec["ideal"], rec["mach"]
     shown = r["text"] + "".join(f"--- file {fn}:\n{c}" for fn, c in r["files"].items())
+    if r["text2"] is not None:
+        shown += "--- second text, parsed by DIP(env) on the returned environment:\n" + r["text2"]
     out = {"text": shown, "observed": kind, "detail": obs if kind == "reject" else None}
     drift = mach in ("accept", "reject") and kind != mach
     if ideal == "unspec":
